@@ -7,15 +7,21 @@ ID = "C10"
 PROPS_FILE = "theories/Props/C10.v"
 EXTRACT = ("theories/Extract/XC10.v", "c10", ["entry_emd", "entry_emdc", "entry_cert", "entry_partial", "entry_brute"])
 PYX = {"_fastemd.pyx": ["emd_hat_int32"]}
-RULE = ("one case = one instance (p, q, c, penalty|None); the implementation is called through centrosome.fastemd for all "
-        "variants: flow type NO_FLOW / WITHOUT_TRANSHIPMENT_FLOW / WITHOUT_EXTRA_MASS_FLOW x gd_metric off (and on when the "
-        "generator built c from a metric). Shapes 1..7 (thorough ..12, some ..25), 40% unequal lengths; masses 0..50 with "
-        "many zeros, equal-mass (permuted / rebalanced) and unequal-mass, all-zero histograms, a few large-value cases; "
-        "ground distances: |i-j|, thresholded |i-j|, 2-D grid L1, shortest-path closure of a random graph (metrics), "
-        "symmetric non-metric, arbitrary, constant, all-zero, 'many entries equal to max' (exercises node removal and "
-        "pre_flow_cost); penalty None / 0 / small / about max/2 / large. Tiny class (<=3x3, masses <=4) also against the "
-        "brute-force enumeration. Non-trivial = at least 2 non-empty bins on each side, non-constant c, and an optimal "
-        "flow with >= 2 non-zero entries; distinct by hash of the case.")
+RULE = ("one case = one instance (p, q, c, penalty|None) plus an encoding; the implementation is called through "
+        "centrosome.fastemd for all variants: flow type NO_FLOW / WITHOUT_TRANSHIPMENT_FLOW / WITHOUT_EXTRA_MASS_FLOW x gd_metric "
+        "off (and on when the generator built c from a metric). Encoding (70% of the generated cases): histograms as "
+        "int8/16/32/64, uint8/16/32/64, float32/64 arrays or Python lists (values always representable), contiguous or "
+        "strided views; cost matrix in nine dtypes, C / Fortran / strided / transposed / negative-stride layouts; penalty as "
+        "int, NumPy int32/int64 or float; keyword or positional call; the arguments must come back unmodified. Shapes 1..7 "
+        "(thorough ..12, some ..25), 40% unequal lengths, plus a shape-extreme class (length-1 histograms, 1-2 bins against "
+        "up to 20, one side all zero, ties / zeros / upper-triangular asymmetric distances, penalty 0 and penalty < max C); "
+        "masses 0..50 with many zeros, equal-mass (permuted / rebalanced) and unequal-mass; a near-bound class scaled so that "
+        "max(sum P,sum Q)*max C + |sum P - sum Q|*penalty lies in [0.5,1)*2^31 (huge masses or huge distances); ground "
+        "distances: |i-j|, thresholded |i-j|, 2-D grid L1, shortest-path closure of a random graph (metrics), symmetric "
+        "non-metric, arbitrary, constant, all-zero, 'many entries equal to max' (node removal and pre_flow_cost); penalty "
+        "None / 0 / small / about max/2 / large. Tiny class (<=3x3, masses <=4) also against the brute-force enumeration. "
+        "Non-trivial = at least 2 non-empty bins on each side, non-constant c, and an optimal flow with >= 2 non-zero "
+        "entries; distinct by hash of the case.")
 TRUSTED = ["modelled at algorithm level, not verified line by line: min_cost_flow.hpp (binary heap, reduced-cost updates); "
            "the model uses successive shortest paths with Bellman-Ford on the same reduced graph",
            "the Python Bellman-Ford that proposes the dual point (alpha, beta, gamma) is untrusted: the extracted, proved "
@@ -553,12 +559,12 @@ def nontrivial(case, out):
 def kernel_crosscheck(ctx, cases, outs):
     idx = [k for k, c in enumerate(cases) if not _bad(outs[k]) and len(c["p"]) <= 4 and len(c["q"]) <= 4
            and sum(c["p"]) + sum(c["q"]) <= 60][:30]
-    args = [_margs(cases[k], 0, 2) for k in idx]
-    exp = ctx.run_model("entry_emd", args)
-    r = ctx.coq_eval_eq("Model.Emd", "entry_emd", args, exp, tag="emd")
-    bad = [k for k, b in zip(idx, r) if b is not True]
+    args = [_margs(cases[k], 0, 2) for k in idx] + [_margs(cases[k], 1 if cases[k].get("metric") else 0, 1) for k in idx[:10]]
+    exp = ctx.run_model("entry_emdc", args)
+    r = ctx.coq_eval_eq("Model.EmdCert", "entry_emdc", args, exp, tag="emd")
+    bad = [k for k, b in zip(idx + idx[:10], r) if b is not True]
     if bad:
-        return "vm_compute evaluation of Model.Emd.entry_emd differs from the extracted program on case %d" % bad[0], len(idx)
+        return "vm_compute evaluation of Model.EmdCert.entry_emdc differs from the extracted program on case %d" % bad[0], len(args)
     # the checker itself: kernel evaluation must accept what the extracted checker accepted
     cargs = []
     for k in idx:
@@ -570,8 +576,8 @@ def kernel_crosscheck(ctx, cases, outs):
     exp = ctx.run_model("entry_cert", cargs)
     r = ctx.coq_eval_eq("Spec.Emd", "entry_cert", cargs, exp, tag="cert")
     if not all(b is True for b in r):
-        return "vm_compute evaluation of Spec.Emd.entry_cert differs from the extracted checker", len(idx) + len(cargs)
-    return None, len(idx) + len(cargs)
+        return "vm_compute evaluation of Spec.Emd.entry_cert differs from the extracted checker", len(args) + len(cargs)
+    return None, len(args) + len(cargs)
 
 
 def search_cases(ctx, rnd):
@@ -643,8 +649,11 @@ MANIFEST = {
         "variant; the no-flow and partial-flow variants and the gd_metric variants must return the same (unique, proved) "
         "value. Zero padding is proved not to change the optimum (padding_invariant). An executable Gallina model of the "
         "wrapper, of the graph reduction of emd_hat_impl.hpp and of a successive-shortest-path solver is compared exactly "
-        "(distance) with the freshly built implementation on the same instances, and cross-checked against vm_compute; "
-        "tiny instances are also compared with a brute-force enumeration of all integral flows."),
+        "(distance) with the freshly built implementation on the same instances, and cross-checked against vm_compute; every "
+        "answer of that model is proved to be the earth mover's distance (the model certifies its own full flow with "
+        "emd_cert_ok; that it always answers is observed, not proved). Also proved: the metric shortcut (diagonal pre-flow "
+        "keeps the optimum under the triangle inequality) and what an accepted partial flow guarantees. Tiny instances are "
+        "also compared with a brute-force enumeration of all integral flows."),
     "level_note": (
         "Trusted: Coq kernel + vm_compute; extraction (ExtrOcamlBasic only) and the S-expression driver; the Python harness. "
         "Modelled, not verified: the C++ min-cost-flow heap code (the model solves the same reduced graph at algorithm "
